@@ -1,4 +1,548 @@
-//! engine `ser` (stub)
-pub fn run(_fields: &[&str]) -> String {
-    "unimplemented".to_string()
+//! engine `ser`: the real `html5ever::serialize::HtmlSerializer` driven (a) by rcdom's
+//! `SerializableHandle` over an RcDom built node by node, (b) by a plain tree type of this file
+//! (cross-check `alt=`), (c) by a raw sequence of `Serializer` calls (`ops` mode).
+//! Model side: lean/H5V/Model/HtmlSerDriver.lean (same grammar, same output).
+//!
+//! case fields
+//!   tree  <scope> <scripting 0|1> <create_missing_parent 0|1> <tree>
+//!   ops   <scope> <scripting 0|1> <create_missing_parent 0|1> <ops>
+//!   parse <scripting 0|1> <document, hex code points>          (generator helper + oracle, no model)
+//! scope  = I | C | N:<ns>:<local>
+//! ns     = h | m | s | x | n | l | 0 | u <hex>
+//! tree   = tokens joined by ';' :  E:<ns>:<local>  A:<ns>:<prefix|~>:<local>:<value>*  children  /
+//!          T:<hex>  C:<hex>  D:<hex>  P:<target>:<data>  R children /          (R = Document)
+//! ops    = tokens joined by ';' :  S:<ns>:<local> A:…*   X:<ns>:<local>   T: C: D: P: as above
+//! output = r=ok|panic-…;out=<bytes hex>;io=ok|<paths>   + harness only: ;alt=…;rt=…
+use crate::proto::*;
+use html5ever::serialize::{
+    serialize, AttrRef, HtmlSerializer, Serialize, SerializeOpts, Serializer, TraversalScope,
+};
+use html5ever::tendril::{StrTendril, TendrilSink};
+use html5ever::tree_builder::TreeBuilderOpts;
+use html5ever::{parse_document, parse_fragment, Attribute, ParseOpts};
+use markup5ever::{LocalName, Namespace, Prefix, QualName};
+use markup5ever_rcdom::{Handle, Node, NodeData, RcDom, SerializableHandle};
+use std::cell::RefCell;
+use std::io;
+use std::panic::{catch_unwind, AssertUnwindSafe};
+use std::rc::Rc;
+
+// ------------------------------------------------------------------ plain tree
+
+#[derive(Clone, Debug, PartialEq)]
+enum T {
+    El(QualName, Vec<(QualName, String)>, Vec<T>),
+    Text(String),
+    Comment(String),
+    Doctype(String),
+    Pi(String, String),
+    Doc(Vec<T>),
+}
+
+impl T {
+    fn children(&self) -> &[T] {
+        match self {
+            T::El(_, _, c) | T::Doc(c) => c,
+            _ => &[],
+        }
+    }
+    fn emit<S: Serializer>(&self, s: &mut S) -> io::Result<()> {
+        match self {
+            T::El(name, attrs, ch) => {
+                s.start_elem(name.clone(), attrs.iter().map(|(n, v)| (n, &v[..])))?;
+                for c in ch {
+                    c.emit(s)?;
+                }
+                s.end_elem(name.clone())
+            },
+            T::Text(t) => s.write_text(t),
+            T::Comment(t) => s.write_comment(t),
+            T::Doctype(t) => s.write_doctype(t),
+            T::Pi(t, d) => s.write_processing_instruction(t, d),
+            T::Doc(_) => panic!("Can't serialize Document node itself"),
+        }
+    }
+}
+
+impl Serialize for T {
+    fn serialize<S: Serializer>(&self, s: &mut S, scope: TraversalScope) -> io::Result<()> {
+        match scope {
+            TraversalScope::IncludeNode => self.emit(s),
+            TraversalScope::ChildrenOnly(_) => {
+                for c in self.children() {
+                    c.emit(s)?;
+                }
+                Ok(())
+            },
+        }
+    }
+}
+
+// ------------------------------------------------------------------ parsing the case
+
+fn ns_of(s: &str) -> Option<Namespace> {
+    Some(match s {
+        "h" => markup5ever::ns!(html),
+        "m" => markup5ever::ns!(mathml),
+        "s" => markup5ever::ns!(svg),
+        "x" => markup5ever::ns!(xml),
+        "n" => markup5ever::ns!(xmlns),
+        "l" => markup5ever::ns!(xlink),
+        "0" => markup5ever::ns!(),
+        _ => {
+            let rest = s.strip_prefix('u')?;
+            Namespace::from(parse_string(rest)?)
+        },
+    })
+}
+
+fn ns_show(ns: &Namespace) -> String {
+    if *ns == markup5ever::ns!(html) {
+        "h".into()
+    } else if *ns == markup5ever::ns!(mathml) {
+        "m".into()
+    } else if *ns == markup5ever::ns!(svg) {
+        "s".into()
+    } else if *ns == markup5ever::ns!(xml) {
+        "x".into()
+    } else if *ns == markup5ever::ns!(xmlns) {
+        "n".into()
+    } else if *ns == markup5ever::ns!(xlink) {
+        "l".into()
+    } else if *ns == markup5ever::ns!() {
+        "0".into()
+    } else {
+        format!("u {}", show_str(ns))
+    }
+}
+
+fn qual(ns: &str, local: &str) -> Option<QualName> {
+    Some(QualName::new(None, ns_of(ns)?, LocalName::from(parse_string(local)?)))
+}
+
+fn parse_attr(f: &[&str]) -> Option<(QualName, String)> {
+    // A:<ns>:<prefix|~>:<local>:<value>
+    if f.len() != 5 {
+        return None;
+    }
+    let prefix = if f[2] == "~" { None } else { Some(Prefix::from(parse_string(f[2])?)) };
+    let name = QualName::new(prefix, ns_of(f[1])?, LocalName::from(parse_string(f[3])?));
+    Some((name, parse_string(f[4])?))
+}
+
+fn parse_scope(s: &str) -> Option<TraversalScope> {
+    let f: Vec<&str> = s.split(':').collect();
+    match f.as_slice() {
+        ["I"] => Some(TraversalScope::IncludeNode),
+        ["C"] => Some(TraversalScope::ChildrenOnly(None)),
+        ["N", ns, local] => Some(TraversalScope::ChildrenOnly(Some(qual(ns, local)?))),
+        _ => None,
+    }
+}
+
+fn parse_flag(s: &str) -> Option<bool> {
+    match s {
+        "0" => Some(false),
+        "1" => Some(true),
+        _ => None,
+    }
+}
+
+/// parses one node starting at toks[*i]; None on malformed input
+fn parse_node(toks: &[&str], i: &mut usize) -> Option<T> {
+    let tok = *toks.get(*i)?;
+    *i += 1;
+    let f: Vec<&str> = tok.split(':').collect();
+    match f[0] {
+        "E" if f.len() == 3 => {
+            let name = qual(f[1], f[2])?;
+            let mut attrs = vec![];
+            while let Some(t) = toks.get(*i) {
+                if !t.starts_with("A:") {
+                    break;
+                }
+                attrs.push(parse_attr(&t.split(':').collect::<Vec<_>>())?);
+                *i += 1;
+            }
+            let ch = parse_children(toks, i)?;
+            Some(T::El(name, attrs, ch))
+        },
+        "R" if f.len() == 1 => Some(T::Doc(parse_children(toks, i)?)),
+        "T" if f.len() == 2 => Some(T::Text(parse_string(f[1])?)),
+        "C" if f.len() == 2 => Some(T::Comment(parse_string(f[1])?)),
+        "D" if f.len() == 2 => Some(T::Doctype(parse_string(f[1])?)),
+        "P" if f.len() == 3 => Some(T::Pi(parse_string(f[1])?, parse_string(f[2])?)),
+        _ => None,
+    }
+}
+
+fn parse_children(toks: &[&str], i: &mut usize) -> Option<Vec<T>> {
+    let mut ch = vec![];
+    loop {
+        let t = *toks.get(*i)?;
+        if t == "/" {
+            *i += 1;
+            return Some(ch);
+        }
+        ch.push(parse_node(toks, i)?);
+    }
+}
+
+fn parse_tree(s: &str) -> Option<T> {
+    let toks: Vec<&str> = s.split(';').collect();
+    let mut i = 0;
+    let t = parse_node(&toks, &mut i)?;
+    if i == toks.len() {
+        Some(t)
+    } else {
+        None
+    }
+}
+
+fn show_tree(t: &T, out: &mut Vec<String>) {
+    match t {
+        T::El(name, attrs, ch) => {
+            out.push(format!("E:{}:{}", ns_show(&name.ns), show_str(&name.local)));
+            for (n, v) in attrs {
+                out.push(format!(
+                    "A:{}:{}:{}:{}",
+                    ns_show(&n.ns),
+                    match &n.prefix {
+                        None => "~".to_string(),
+                        Some(p) => show_str(p),
+                    },
+                    show_str(&n.local),
+                    show_str(v)
+                ));
+            }
+            for c in ch {
+                show_tree(c, out);
+            }
+            out.push("/".into());
+        },
+        T::Doc(ch) => {
+            out.push("R".into());
+            for c in ch {
+                show_tree(c, out);
+            }
+            out.push("/".into());
+        },
+        T::Text(s) => out.push(format!("T:{}", show_str(s))),
+        T::Comment(s) => out.push(format!("C:{}", show_str(s))),
+        T::Doctype(s) => out.push(format!("D:{}", show_str(s))),
+        T::Pi(a, b) => out.push(format!("P:{}:{}", show_str(a), show_str(b))),
+    }
+}
+
+// ------------------------------------------------------------------ rcdom bridge
+
+fn to_rcdom(t: &T) -> Handle {
+    let data = match t {
+        T::El(name, attrs, _) => NodeData::Element {
+            name: name.clone(),
+            attrs: RefCell::new(
+                attrs
+                    .iter()
+                    .map(|(n, v)| Attribute { name: n.clone(), value: StrTendril::from_slice(v) })
+                    .collect(),
+            ),
+            template_contents: RefCell::new(None),
+            mathml_annotation_xml_integration_point: false,
+        },
+        T::Text(s) => NodeData::Text { contents: RefCell::new(StrTendril::from_slice(s)) },
+        T::Comment(s) => NodeData::Comment { contents: StrTendril::from_slice(s) },
+        T::Doctype(s) => NodeData::Doctype {
+            name: StrTendril::from_slice(s),
+            public_id: StrTendril::new(),
+            system_id: StrTendril::new(),
+        },
+        T::Pi(a, b) => NodeData::ProcessingInstruction {
+            target: StrTendril::from_slice(a),
+            contents: StrTendril::from_slice(b),
+        },
+        T::Doc(_) => NodeData::Document,
+    };
+    let node = Node::new(data);
+    for c in t.children() {
+        let ch = to_rcdom(c);
+        ch.parent.set(Some(Rc::downgrade(&node)));
+        node.children.borrow_mut().push(ch);
+    }
+    node
+}
+
+/// `children` only, exactly what `SerializableHandle` walks (template contents are not visited)
+fn from_rcdom(h: &Handle) -> T {
+    let ch: Vec<T> = h.children.borrow().iter().map(from_rcdom).collect();
+    match &h.data {
+        NodeData::Document => T::Doc(ch),
+        NodeData::Element { name, attrs, .. } => T::El(
+            name.clone(),
+            attrs.borrow().iter().map(|a| (a.name.clone(), a.value.to_string())).collect(),
+            ch,
+        ),
+        NodeData::Text { contents } => T::Text(contents.borrow().to_string()),
+        NodeData::Comment { contents } => T::Comment(contents.to_string()),
+        NodeData::Doctype { name, .. } => T::Doctype(name.to_string()),
+        NodeData::ProcessingInstruction { target, contents } => {
+            T::Pi(target.to_string(), contents.to_string())
+        },
+    }
+}
+
+// ------------------------------------------------------------------ running the real serializer
+
+fn panic_site(e: Box<dyn std::any::Any + Send>) -> String {
+    let msg = if let Some(s) = e.downcast_ref::<&str>() {
+        s.to_string()
+    } else if let Some(s) = e.downcast_ref::<String>() {
+        s.clone()
+    } else {
+        "?".to_string()
+    };
+    match msg.as_str() {
+        "no parent ElemInfo" => "panic-no-parent".into(),
+        "no ElemInfo" => "panic-no-eleminfo".into(),
+        "Can't serialize Document node itself" => "panic-document".into(),
+        m => format!("panic-other({})", m.replace([';', '\t', '\n'], " ")),
+    }
+}
+
+fn opts(scope: &TraversalScope, scripting: bool, cmp: bool) -> SerializeOpts {
+    SerializeOpts {
+        scripting_enabled: scripting,
+        traversal_scope: scope.clone(),
+        create_missing_parent: cmp,
+    }
+}
+
+/// (status, bytes written — also those written before a panic)
+fn run_ser<N: Serialize>(node: &N, scope: &TraversalScope, scripting: bool, cmp: bool) -> (String, Vec<u8>) {
+    let mut buf: Vec<u8> = vec![];
+    let r = catch_unwind(AssertUnwindSafe(|| {
+        serialize(&mut buf, node, opts(scope, scripting, cmp)).expect("io")
+    }));
+    match r {
+        Ok(()) => ("ok".into(), buf),
+        Err(e) => (panic_site(e), buf),
+    }
+}
+
+/// start tag and end tag of an element as the real serializer writes them on a fresh stack
+fn tags(name: &QualName, attrs: &[(QualName, String)], scripting: bool, cmp: bool) -> (Vec<u8>, Vec<u8>) {
+    let mut buf: Vec<u8> = vec![];
+    let n1;
+    {
+        let mut ser = HtmlSerializer::new(&mut buf, opts(&TraversalScope::IncludeNode, scripting, cmp));
+        ser.start_elem(name.clone(), attrs.iter().map(|(n, v)| (n, &v[..]))).expect("io");
+        n1 = ser.writer.len();
+        ser.end_elem(name.clone()).expect("io");
+    }
+    let end = buf.split_off(n1);
+    (buf, end)
+}
+
+/// inner/outer on the real code for every element below (and including) `t`
+fn inner_outer(t: &T, h: &Handle, path: &str, scripting: bool, cmp: bool, bad: &mut Vec<String>) {
+    if let T::El(name, attrs, _) = t {
+        let sh = SerializableHandle::from(h.clone());
+        let (ro, outer) = run_ser(&sh, &TraversalScope::IncludeNode, scripting, cmp);
+        let (ri, inner) =
+            run_ser(&sh, &TraversalScope::ChildrenOnly(Some(name.clone())), scripting, cmp);
+        let (start, end) = tags(name, attrs, scripting, cmp);
+        let mut want = start;
+        want.extend_from_slice(&inner);
+        want.extend_from_slice(&end);
+        if ro != ri || (ro == "ok" && outer != want) {
+            bad.push(path.to_string());
+        }
+    }
+    let kids = h.children.borrow();
+    for (k, c) in t.children().iter().enumerate() {
+        let p = if path == "r" { format!("{}", k) } else { format!("{}.{}", path, k) };
+        inner_outer(c, &kids[k], &p, scripting, cmp, bad);
+    }
+}
+
+fn show_io(bad: &[String]) -> String {
+    if bad.is_empty() {
+        "ok".into()
+    } else {
+        bad.iter().take(8).cloned().collect::<Vec<_>>().join(",")
+    }
+}
+
+fn parse_opts(scripting: bool) -> ParseOpts {
+    ParseOpts {
+        tree_builder: TreeBuilderOpts { scripting_enabled: scripting, ..Default::default() },
+        ..Default::default()
+    }
+}
+
+/// real round trip: serialize the children of a `div` root, parse as a fragment with context `div`
+fn round_trip(t: &T, h: &Handle, scripting: bool) -> String {
+    let (name, ch) = match t {
+        T::El(name, _, ch)
+            if name.ns == markup5ever::ns!(html) && &*name.local == "div" => (name, ch),
+        _ => return "na".into(),
+    };
+    let sh = SerializableHandle::from(h.clone());
+    let (r, bytes) = run_ser(&sh, &TraversalScope::ChildrenOnly(Some(name.clone())), scripting, false);
+    if r != "ok" {
+        return "na".into();
+    }
+    let text = match String::from_utf8(bytes) {
+        Ok(s) => s,
+        Err(_) => return "utf8".into(),
+    };
+    // `discard_bom` off: the input is a string, not a decoded byte stream (with the default `true`
+    // the tokenizer drops a U+FEFF that starts the first text node)
+    let mut po = parse_opts(scripting);
+    po.tokenizer.discard_bom = false;
+    let dom = parse_fragment(RcDom::default(), po, name.clone(), vec![], scripting)
+        .one(StrTendril::from_slice(&text));
+    // document -> html -> fragment children
+    let doc = from_rcdom(&dom.document);
+    let got: Vec<T> = match doc.children() {
+        [T::El(_, _, c)] => c.clone(),
+        _ => return "shape".into(),
+    };
+    // attribute prefixes are not part of the comparison (the parser never sets one in HTML content)
+    fn strip(t: &T) -> T {
+        match t {
+            T::El(n, a, c) => T::El(
+                QualName::new(None, n.ns.clone(), n.local.clone()),
+                a.iter()
+                    .map(|(n, v)| (QualName::new(None, n.ns.clone(), n.local.clone()), v.clone()))
+                    .collect(),
+                c.iter().map(strip).collect(),
+            ),
+            other => other.clone(),
+        }
+    }
+    let want: Vec<T> = ch.iter().map(strip).collect();
+    let got: Vec<T> = got.iter().map(strip).collect();
+    if want == got {
+        "ok".into()
+    } else {
+        "diff".into()
+    }
+}
+
+fn run_tree(fields: &[&str]) -> String {
+    let (scope, scripting, cmp, tree) = match (
+        parse_scope(fields[1]),
+        parse_flag(fields[2]),
+        parse_flag(fields[3]),
+        parse_tree(fields[4]),
+    ) {
+        (Some(a), Some(b), Some(c), Some(d)) => (a, b, c, d),
+        _ => return "bad-case".into(),
+    };
+    let h = to_rcdom(&tree);
+    let (r, out) = run_ser(&SerializableHandle::from(h.clone()), &scope, scripting, cmp);
+    let (r2, out2) = run_ser(&tree, &scope, scripting, cmp);
+    let alt = if r == r2 && out == out2 { "ok" } else { "bad" };
+    let mut bad = vec![];
+    inner_outer(&tree, &h, "r", scripting, cmp, &mut bad);
+    let rt = round_trip(&tree, &h, scripting);
+    format!("r={};out={};io={};alt={};rt={}", r, show_bytes(&out), show_io(&bad), alt, rt)
+}
+
+fn run_ops(fields: &[&str]) -> String {
+    let (scope, scripting, cmp) =
+        match (parse_scope(fields[1]), parse_flag(fields[2]), parse_flag(fields[3])) {
+            (Some(a), Some(b), Some(c)) => (a, b, c),
+            _ => return "bad-case".into(),
+        };
+    enum Op {
+        Start(QualName, Vec<(QualName, String)>),
+        End(QualName),
+        Text(String),
+        Comment(String),
+        Doctype(String),
+        Pi(String, String),
+    }
+    let toks: Vec<&str> = if fields[4] == "-" { vec![] } else { fields[4].split(';').collect() };
+    let mut ops = vec![];
+    let mut i = 0;
+    while i < toks.len() {
+        let f: Vec<&str> = toks[i].split(':').collect();
+        i += 1;
+        let op = match f[0] {
+            "S" if f.len() == 3 => {
+                let mut attrs = vec![];
+                while i < toks.len() && toks[i].starts_with("A:") {
+                    match parse_attr(&toks[i].split(':').collect::<Vec<_>>()) {
+                        Some(a) => attrs.push(a),
+                        None => return "bad-case".into(),
+                    }
+                    i += 1;
+                }
+                qual(f[1], f[2]).map(|n| Op::Start(n, attrs))
+            },
+            "X" if f.len() == 3 => qual(f[1], f[2]).map(Op::End),
+            "T" if f.len() == 2 => parse_string(f[1]).map(Op::Text),
+            "C" if f.len() == 2 => parse_string(f[1]).map(Op::Comment),
+            "D" if f.len() == 2 => parse_string(f[1]).map(Op::Doctype),
+            "P" if f.len() == 3 => match (parse_string(f[1]), parse_string(f[2])) {
+                (Some(a), Some(b)) => Some(Op::Pi(a, b)),
+                _ => None,
+            },
+            _ => None,
+        };
+        match op {
+            Some(op) => ops.push(op),
+            None => return "bad-case".into(),
+        }
+    }
+    let mut buf: Vec<u8> = vec![];
+    let r = catch_unwind(AssertUnwindSafe(|| {
+        let mut ser = HtmlSerializer::new(&mut buf, opts(&scope, scripting, cmp));
+        for op in &ops {
+            match op {
+                Op::Start(n, a) => ser.start_elem(n.clone(), a.iter().map(|(n, v)| -> AttrRef { (n, &v[..]) })),
+                Op::End(n) => ser.end_elem(n.clone()),
+                Op::Text(t) => ser.write_text(t),
+                Op::Comment(t) => ser.write_comment(t),
+                Op::Doctype(t) => ser.write_doctype(t),
+                Op::Pi(a, b) => ser.write_processing_instruction(a, b),
+            }
+            .expect("io");
+        }
+    }));
+    let r = match r {
+        Ok(()) => "ok".to_string(),
+        Err(e) => panic_site(e),
+    };
+    format!("r={};out={}", r, show_bytes(&buf))
+}
+
+/// parse a document with the real parser; print the tree (children only, as rcdom serialises it)
+/// and the inner/outer verdict over every element for both serializer scripting settings
+fn run_parse(fields: &[&str]) -> String {
+    let (scripting, text) = match (parse_flag(fields[1]), parse_string(fields[2])) {
+        (Some(a), Some(b)) => (a, b),
+        _ => return "bad-case".into(),
+    };
+    let dom = parse_document(RcDom::default(), parse_opts(scripting)).one(StrTendril::from_slice(&text));
+    let t = from_rcdom(&dom.document);
+    let mut toks = vec![];
+    show_tree(&t, &mut toks);
+    let mut res = vec![];
+    for s in [false, true] {
+        let mut bad = vec![];
+        inner_outer(&t, &dom.document, "r", s, false, &mut bad);
+        res.push(format!("io{}={}", s as u8, show_io(&bad)));
+    }
+    format!("{};tree={}", res.join(";"), toks.join(";"))
+}
+
+pub fn run(fields: &[&str]) -> String {
+    match fields.first().copied() {
+        Some("tree") if fields.len() == 5 => run_tree(fields),
+        Some("ops") if fields.len() == 5 => run_ops(fields),
+        Some("parse") if fields.len() == 3 => run_parse(fields),
+        _ => "bad-case".into(),
+    }
 }
